@@ -317,6 +317,17 @@ class C15(Prop):
             elif mode == "stdin":
                 p = subprocess.run(exe + a + ["-"], cwd=d, env=env, input=text, capture_output=True, text=True, timeout=120)
                 got = p.stdout
+                # the raw-byte documents through a REAL pipe (the in-process runs replace sys.stdin by a StringIO)
+                for rname, raw in RAW_DOCS.items():
+                    if rname == "cr.md":
+                        continue
+                    pr = subprocess.run(exe + a + ["-"], cwd=d, env=env, input=raw.encode("utf-8"), capture_output=True, timeout=120)
+                    wr = self.expected(as_read(raw), o)
+                    col.case()
+                    col.mon("exe")
+                    if isinstance(wr, str) and (pr.returncode != 0 or pr.stdout.decode("utf-8") != wr):
+                        self.differ(col, "exe", "C15/executable-stdin-raw-bytes-differ-from-text-api", dict(case, doc=rname), rc=pr.returncode,
+                                    got_head=pr.stdout.decode("utf-8", "replace")[:80], want_head=wr[:80])
             elif mode == "inplace":
                 p = subprocess.run(exe + a + ["-i", name], cwd=d, env=env, capture_output=True, text=True, timeout=120)
                 got = self.read(d, name)
